@@ -1009,7 +1009,7 @@ class OdeSystem(object):
         implicit_integration = False
         if np.isinf(D.ar_numpy.to_numpy(tf)):
             implicit_integration = True
-            if not any(is_terminal):
+            if is_terminal is None or not any(is_terminal):
                 deutil.warning(
                     "Specifying an indefinite integration time with no terminal events "
                     "can lead to memory issues if no event terminates the integration.",
